@@ -181,7 +181,8 @@ MemDepCase(x) ==
 
 (* ------------------------------- MemWalk (C05) ----------------------------- *)
 (* loop 1 walks `count` elements with `stride` from `first`, doing `mix`; loop 2 re-reads them and sums into t2 *)
-Mixes == {"l", "s", "ls", "sl", "rmw", "ssl"}
+Mixes == {"l", "s", "ls", "sl", "rmw", "ssl", "hot"}
+HotAddr == 5760   \* "hot": one line is read-modified-written in every iteration of both loops while the walk streams past it
 Body(mix, w) ==
   LET L == IF w = 1 THEN Lb("t0", "a0", 0) ELSE IF w = 2 THEN Lh("t0", "a0", 0) ELSE Lw("t0", "a0", 0)
       S == IF w = 1 THEN Sb("t1", "a0", 0) ELSE IF w = 2 THEN Sh("t1", "a0", 0) ELSE Sw("t1", "a0", 0)
@@ -191,23 +192,29 @@ Body(mix, w) ==
        [] mix = "sl" -> <<S, L, AddI("t2", "t2", "t0"), Addi("t1", "t1", 3)>>
        \* two store misses in a row keep the write path busy while the second line is re-read
        [] mix = "ssl" -> <<S, [S EXCEPT !.imm = 64], [L EXCEPT !.imm = 64], AddI("t2", "t2", "t0"), Addi("t1", "t1", 3)>>
+       [] mix = "hot" -> <<Lw("t0", "ra", 0), Addi("t0", "t0", 1), Sw("t0", "ra", 0), L, AddI("t2", "t2", "t0")>>
        [] mix = "rmw" -> <<L, Addi("t0", "t0", 1), IF w = 1 THEN Sb("t0", "a0", 0) ELSE IF w = 2 THEN Sh("t0", "a0", 0) ELSE Sw("t0", "a0", 0)>>
 WalkProg(mix, w, stride, count, first) ==
   LET b == Body(mix, w)
-      l1 == 2                                        \* 0-based index of loop 1 head
+      pre == IF mix = "hot" THEN <<Li("ra", HotAddr)>> ELSE <<>>
+      l1 == Len(pre) + 2                             \* 0-based index of loop 1 head
       loop1 == b \o <<Addi("a0", "a0", stride), Addi("t3", "t3", -1), I("bnez", "zero", "t3", "zero", 0, l1)>>
-      l2 == 2 + Len(loop1) + 2
+      l2 == l1 + Len(loop1) + 2
       rd == IF w = 1 THEN Lb("t0", "a1", 0) ELSE IF w = 2 THEN Lh("t0", "a1", 0) ELSE Lw("t0", "a1", 0)
-      loop2 == <<rd, AddI("t2", "t2", "t0"), Addi("a1", "a1", stride), Addi("t3", "t3", -1), I("bnez", "zero", "t3", "zero", 0, l2)>>
-  IN <<Li("a0", first), Li("t3", count)>> \o loop1 \o <<Li("a1", first), Li("t3", count)>> \o loop2 \o <<Nop>>
-WalkCases == { <<mix, w, stride, count, first>> :
-                 mix \in Mixes, w \in {1, 2, 4},
+      hot2 == IF mix = "hot" THEN <<Lw("t0", "ra", 0), AddI("t2", "t2", "t0")>> ELSE <<>>
+      loop2 == <<rd, AddI("t2", "t2", "t0")>> \o hot2 \o <<Addi("a1", "a1", stride), Addi("t3", "t3", -1), I("bnez", "zero", "t3", "zero", 0, l2)>>
+  IN pre \o <<Li("a0", first), Li("t3", count)>> \o loop1 \o <<Li("a1", first), Li("t3", count)>> \o loop2 \o <<Nop>>
+WalkCases == { <<"hot", w, 128, 40, first>> : w \in {1, 2, 4}, first \in {0, 60} }   \* more L3 lines than MVP-8's L3 holds stream past the hot line
+             \cup
+             { <<mix, w, stride, count, first>> :
+                 mix \in Mixes \ {"hot"}, w \in {1, 2, 4},
                  stride \in (IF Size = "large" THEN {4, 64, 68, 128, 132} ELSE {64, 68}),
                  count \in (IF Size = "large" THEN {18, 36, 40} ELSE {20}),
-                 first \in (IF Size = "large" THEN {0, 4, 60, 64, 100} ELSE {0, 60}) }
+                 first \in (IF Size = "large" THEN {0, 4, 60, 64, 100, -1} ELSE {0, 60, -1}) }   \* -1: the walk ends at the top of memory
 WalkMem == 8192
 WalkCase(x) ==
-  LET p == WalkProg(x[1], x[2], x[3], x[4], x[5])
+  LET first == IF x[5] = -1 THEN WalkMem - x[4] * x[3] ELSE x[5]
+      p == WalkProg(x[1], x[2], x[3], x[4], first)
       r0 == Regs0(0, 0, 0, 17, 0, 0)
       fin == Final(p, r0, "ramp", WalkMem, 2000)
   IN CaseRec("MemWalk", p, r0, "ramp", WalkMem, fin, {"t2"}, {}, Tags(p, fin),
@@ -381,11 +388,40 @@ OobCase(x) ==
       fin == Final(p, r0, "ramp", 256, 64)
   IN CaseRec("Oob", p, r0, "ramp", 256, fin, {}, {}, {"out_of_range"}, [base |-> x[1], off |-> x[2]])
 
-Cases == CASE Family = "Oob" -> OobCases [] Family = "Shadow" -> ShadowCases [] Family = "Shadow2" -> Shadow2Cases [] Family = "Tail2" -> Tail2Cases [] Family = "Misaligned" -> MisCases [] Family = "Repo" -> RepoCases [] Family = "Unroll" -> UnrollCases [] Family = "Call" -> CallCases [] Family = "LineFill" -> LineFillCases
+(* ------------------------------- FarBack (C03) ------------------------------ *)
+(* A taken transfer k instructions before the END of the program text whose target lies in an         *)
+(* instruction line that was jumped over at the start (so it is fetched through an instruction-cache   *)
+(* miss after the flush), while the wrong-path fetch runs past the last instruction.                   *)
+FarBackCases == { <<k, br>> : k \in 0 .. 4, br \in {"beq", "j", "bnez"} }
+FarBackCase(x) ==
+  LET k == x[1]
+      br == CASE x[2] = "beq" -> B("beq", "zero", "zero", 16) [] x[2] = "j" -> J(16) [] OTHER -> B("bnez", "t0", "zero", 16)
+      p == <<J(20)>> \o [i \in 1 .. 15 |-> Nop]
+           \o <<Addi("t3", "t3", 100), Addi("t1", "t3", 1), J(22 + k), Nop>>     \* 16 .. 19
+           \o <<Li("t0", 1), br>>                                              \* 20, 21
+           \o [i \in 1 .. k |-> Li("t2", 9)]                                   \* the shadow, then the end of the text
+      r0 == Regs0(64, 128, 77, 5, 6, 0)
+      fin == Final(p, r0, "ramp", 256, 64)
+  IN CaseRec("FarBack", p, r0, "ramp", 256, fin, {"t1", "t2", "t3"}, {}, Tags(p, fin), [k |-> k, br |-> x[2]])
+
+(* ------------------------------- EndAt (C09) ------------------------------ *)
+(* Straight-line programs of n instructions that end by running past the last instruction; the last    *)
+(* instruction has a visible effect.  n around the multiples of an instruction line (16 instructions): *)
+(* the last instruction is then the first one of a line that has to be fetched.                        *)
+EndAtCases == { <<n, kind>> : n \in {15, 16, 17, 18, 31, 32, 33, 34, 49}, kind \in {"reg", "mem"} }
+EndAtCase(x) ==
+  LET n == x[1]
+      last == IF x[2] = "reg" THEN Addi("t1", "t1", 7) ELSE Sw("t1", "a0", 4)
+      p == [i \in 1 .. (n - 1) |-> IF i % 5 = 0 THEN Addi("t2", "t2", 1) ELSE Nop] \o <<last>>
+      r0 == Regs0(64, 128, 77, 5, 6, 0)
+      fin == Final(p, r0, "ramp", 256, 64)
+  IN CaseRec("EndAt", p, r0, "ramp", 256, fin, {"t1", "t2"}, 68 .. 71, Tags(p, fin), [n |-> n, kind |-> x[2]])
+
+Cases == CASE Family = "Oob" -> OobCases [] Family = "FarBack" -> FarBackCases [] Family = "EndAt" -> EndAtCases [] Family = "Shadow" -> ShadowCases [] Family = "Shadow2" -> Shadow2Cases [] Family = "Tail2" -> Tail2Cases [] Family = "Misaligned" -> MisCases [] Family = "Repo" -> RepoCases [] Family = "Unroll" -> UnrollCases [] Family = "Call" -> CallCases [] Family = "LineFill" -> LineFillCases
            [] Family = "RegDep" -> RegDepCases [] Family = "Tail" -> TailCases
            [] Family = "MemDep" -> MemDepCases [] Family = "MemWalk" -> WalkCases [] Family = "Err" -> ErrCases
            [] Family = "Timing" -> TimingCases
-MkCase(x) == CASE Family = "Oob" -> OobCase(x) [] Family = "Shadow" -> ShadowCase(x) [] Family = "Shadow2" -> Shadow2Case(x) [] Family = "Tail2" -> Tail2Case(x) [] Family = "Misaligned" -> MisCase(x) [] Family = "Repo" -> RepoCase(x) [] Family = "Unroll" -> UnrollCase(x) [] Family = "Call" -> CallCase(x) [] Family = "LineFill" -> LineFillCase(x) [] Family = "RegDep" -> RegDepCase(x) [] Family = "Tail" -> TailCase(x)
+MkCase(x) == CASE Family = "FarBack" -> FarBackCase(x) [] Family = "EndAt" -> EndAtCase(x) [] Family = "Oob" -> OobCase(x) [] Family = "Shadow" -> ShadowCase(x) [] Family = "Shadow2" -> Shadow2Case(x) [] Family = "Tail2" -> Tail2Case(x) [] Family = "Misaligned" -> MisCase(x) [] Family = "Repo" -> RepoCase(x) [] Family = "Unroll" -> UnrollCase(x) [] Family = "Call" -> CallCase(x) [] Family = "LineFill" -> LineFillCase(x) [] Family = "RegDep" -> RegDepCase(x) [] Family = "Tail" -> TailCase(x)
                [] Family = "MemDep" -> MemDepCase(x) [] Family = "MemWalk" -> WalkCase(x) [] Family = "Err" -> ErrCase(x)
                [] Family = "Timing" -> TimingCase(x)
 
